@@ -61,13 +61,19 @@ def messages():
     # refused by the encoder's own header checks rather than by a per-PGN encoder
     prio8, src256, wide = copy.deepcopy(single), copy.deepcopy(single), copy.deepcopy(multi)
     prio8.priority, src256.source, wide.PGN = 8, 256, 0x40000
+    # a PGN number with several definitions (65280 Furuno heave): a valid message, and one whose value is out of range
+    mv = dec.decode_basic_string(corpus.basic_string(65280, bytes([0x3F, 0x9F, 0x10, 0, 0, 0, 0xFF, 0xFF]), src=9), already_combined=True)
+    mv2 = copy.deepcopy(mv)
+    mv2.get_field_by_id("heave").value = 0.25
+    mv_bad = copy.deepcopy(mv)
+    mv_bad.get_field_by_id("heave").value = 1e9
     from nmea2000.message import NMEA2000Message
     seeds = []
     for want in (60928, 126996, 126998):
         sm = NMEA2000Message.from_json('{"PGN":59904,"id":"isoRequest","description":"ISO Request","fields":[{"id":"pgn","name":"PGN","description":null,"unit_of_measurement":null,"value":60928,"raw_value":60928,"physical_quantities":null,"type":[13],"part_of_primary_key":false}],"source":0,"destination":255,"priority":6,"timestamp":"2012-06-17T15:02:11","source_iso_name":null,"hash":null}')
         sm.fields[0].value = want
         seeds.append(sm)
-    return {"seed1": seeds[0], "seed2": seeds[1], "seed3": seeds[2],
+    return {"seed1": seeds[0], "seed2": seeds[1], "seed3": seeds[2], "variant": mv, "variant2": mv2, "bad-variant": mv_bad,
             "single": single, "single2": single2, "multi": multi, "multi2": multi2,
             "bad-missing": missing, "bad-range": out_of_range, "bad-pgn": unknown,
             "bad-priority": prio8, "bad-source": src256, "bad-pgn-wide": wide}
@@ -228,6 +234,11 @@ def bind(chk: Check, tier: str, seed: int):
                 recs.append(r)
                 meta.append((kind, "+".join(names), "drain=alt", "stagger1", "unsendable"))
             pass
+        # a refused message of a PGN number that has several definitions, then valid messages of that PGN: they go out as ever
+        for names in (["variant", "bad-variant", "variant2", "variant"], ["bad-variant", "variant", "multi", "variant2"]):
+            r, order = session(kind, names, 2, SendPlan(), [], M)
+            recs.append(r)
+            meta.append((kind, "+".join(names), "drain=none", "stagger2", "unsendable"))
         # a client built with network mapping on: its own requests fall due while a multi-frame message is stalled between frames
         for t0 in (1.75, 1.9, 3.8, 5.85):
             for names in (["multi"], ["multi", "multi2"]):
